@@ -106,22 +106,32 @@ def cases(tier, seed):
                             continue
                         out.append({'struct': sname, 'sel': si, 'N': N, 'backend': backend, 'vectorize': vec,
                                     'solver': solver, 'seed': seed})
+                        # recording every 2nd / 3rd step only: the sample used in step k is still sample k
+                        if solver != 'scipy' and (tier != 'quick' or si == 0):
+                            for sub in (2, 3):
+                                out.append({'struct': sname, 'sel': si, 'N': N, 'backend': backend, 'vectorize': vec,
+                                            'solver': solver, 'seed': seed, 'sub': sub})
     if tier == 'quick':
         # a thin slice of the other backends in the quick tier
         for backend, vec in (('torch', True), ('jax', True), ('fortran', False)):
-            for sname, si in (('S1', 0), ('S2', 2), ('S2', 3), ('H1', 3)):
+            for sname, si in (('S1', 0), ('S2', 2), ('S2', 3), ('H1', 3), ('S2m', 0), ('S2', 5)):
                 if not vec and any(k == 'Nn' for _, k in SELECTIONS[sname][si]):
                     continue
                 for solver in ('euler', 'scipy'):
                     out.append({'struct': sname, 'sel': si, 'N': 8, 'backend': backend, 'vectorize': vec,
                                 'solver': solver, 'seed': seed})
+            for sname, si in (('S1', 0), ('S2', 5)):
+                for solver in ('euler',) + (('heun',) if backend != 'torch' else ()):
+                    for sub in (2, 3):
+                        out.append({'struct': sname, 'sel': si, 'N': 8, 'backend': backend, 'vectorize': vec,
+                                    'solver': solver, 'seed': seed, 'sub': sub})
     return out
 
 
 def describe(tier, seed):
     return {'rule': 'pure integrators x\' = u (+u2, + edge) in 1-4 nodes, depth 0-2 x every listed target selection (single, '
                     'wildcard, hierarchical, two inputs on one variable) x shapes (N,), (N,1), (N,n) with strictly distinct '
-                    'samples x solver x backend x vectorize; oracle: dict-state reference with sample k during step k '
+                    'samples x solver x backend x vectorize x recording every 1st/2nd/3rd step; oracle: dict-state reference with sample k during step k '
                     '(fixed step), exact integral / np.interp of the samples on linspace(0,T,N) (adaptive, incl. f(t,y) '
                     'at on-grid, mid-grid and out-of-range t); non-trivial = every case (inputs are never constant)',
             'bounds': {'nodes': 4, 'depth': 2, 'N': 8 if tier == 'quick' else 13}}
@@ -158,7 +168,8 @@ def run_case(case):
     adaptive = case['solver'] == 'scipy'
     m = sp.refmodel(spec, inputs=ext_adapt if adaptive else ext_fixed)
     outs = {f'o{i}': f'{p}/{nodes[p][0][0]}/x' for i, p in enumerate(io_nodes)}
-    kw = dict(simulation_time=T, step_size=dt, sampling_step_size=dt, outputs=dict(outs), solver=case['solver'],
+    sub = case.get('sub', 1)
+    kw = dict(simulation_time=T, step_size=dt, sampling_step_size=sub * dt, outputs=dict(outs), solver=case['solver'],
               backend=case['backend'], vectorize=case['vectorize'], verbose=False, float_precision='float64',
               clear=True, inputs={k: v.copy() for k, v in inputs.items()})
     if adaptive:
@@ -174,7 +185,7 @@ def run_case(case):
     # expected trajectories
     if not adaptive:
         rows = (solvers.euler if case['solver'] == 'euler' else solvers.heun)(m, dt, N - 1)
-        exp = {k: np.array([r[p] for r in rows]) for k, p in outs.items()}
+        exp = {k: np.array([r[p] for r in rows])[::sub][:int(round(T / (sub * dt)))] for k, p in outs.items()}
         tol = 1e-9
     else:
         # exact integral of the piecewise-linear interpolants (and of the ramp edge) via the dict-state field on a
